@@ -31,6 +31,9 @@ type nhConcArg struct {
 	// IDsOnly restricts the oracle of the submit mode to what C14 states (every bundle filed under its own ID);
 	// otherwise the final record of every bundle is also compared with a sequential reference run (C05).
 	IDsOnly bool `json:"ids_only,omitempty"`
+	// Report (failures mode): the bundle requests a forwarding report to a remote endpoint; the oracle is that no
+	// "forwarded" report exists after all transmissions failed (C15).
+	Report bool `json:"report,omitempty"`
 }
 
 func init() { schedScenarios["nhconc"] = schedScenario{Setup: nhConcSetup} }
@@ -54,6 +57,9 @@ func nhConcSetup(arg json.RawMessage) (func(), func(vrt.Result) (string, string,
 	switch a.Mode {
 	case "failures":
 		b := gen.Spec{Dst: "dtn://dest/x", Src: "dtn://node/app", Rpt: "dtn://node/app", PCRC: 2, Time: DtnNow(), Lifetime: 3600000, PayLen: 6, PaySeed: 1}.Build()
+		if a.Report {
+			b = gen.Spec{Dst: "dtn://dest/x", Src: "dtn://node/app", Rpt: "dtn://collector/r", PCRC: 2, Time: DtnNow(), Lifetime: 3600000, PayLen: 6, PaySeed: 1, Flags: ref.FReqForward}.Build()
+		}
 		n.submit(b) // no peers yet: the bundle waits in the store
 		for _, p := range peers {
 			n.setOutcome(p, false)
@@ -72,6 +78,29 @@ func nhConcSetup(arg json.RawMessage) (func(), func(vrt.Result) (string, string,
 			}
 			sort.Strings(tried)
 			obs = "tried=" + strings.Join(tried, ",")
+			if a.Report {
+				// every administrative record the node holds now: none may claim that the bundle was forwarded
+				if pend, perr := n.core.VerifStore().QueryPending(); perr == nil {
+					for _, bi := range pend {
+						if len(bi.Parts) == 0 {
+							continue
+						}
+						sb, lerr := bi.Parts[0].Load()
+						if lerr != nil {
+							continue
+						}
+						enc, _ := gen.Ser(&sb)
+						rb, derr := ref.Decode(enc)
+						if derr != nil || rb.P.Flags&ref.FAdminRecord == 0 {
+							continue
+						}
+						if rep, rerr := decodeReport(rb); rerr == nil && rep.Status == 1 {
+							return obs + " forwarded-report", "forwarded-report-although-all-transmissions-failed", fmt.Sprintf("all %d transmissions failed, yet the node created a status report saying the bundle was forwarded (reason %d)", len(first), rep.Reason)
+						}
+					}
+				}
+				return obs, "", ""
+			}
 			si := n.storeInfo(bid)
 			if !si.Known || !si.Pending {
 				return obs, "bundle-not-pending-after-concurrent-failures", fmt.Sprintf("all %d transmissions failed; store: known=%v pending=%v constraints=%v", len(first), si.Known, si.Pending, si.Cons)
